@@ -119,7 +119,8 @@ theorem shellquote_false_is_raw (e : Elem) (h : e.quoted = false) : renderElems 
 
 /-- `export K="v"`: values without `$`, backquote, backslash and double quote reach the tool verbatim -/
 theorem env_eq_spec_partial (v : List Char) (h : ∀ c, c ∈ v → dqActive c = false) :
-    parseCmd .unq (dqRender v) [] [] = some [v] := by
+    parseCmd .unq (envRender v) [] [] = some [v] := by
+  show parseCmd .unq (dqRender v) [] [] = some [v]
   unfold dqRender
   have h1 : ¬ ('"' = ' ') := by decide
   have h2 : ¬ ('"' = '\'') := by decide
@@ -130,8 +131,12 @@ theorem env_eq_spec_partial (v : List Char) (h : ∀ c, c ∈ v → dqActive c =
 /-- the full environment statement is **false of the code** (DESIGN §6 #5): the EnvVarRequirement value
 `$HOME \`id\`` between double quotes is expanded / executed by the shell instead of being passed verbatim -/
 theorem env_eq_spec_false :
-    parseCmd .unq (dqRender "$HOME `id`".toList) [] [] ≠ some ["$HOME `id`".toList] := by
+    parseCmd .unq (envRender "$HOME `id`".toList) [] [] ≠ some ["$HOME `id`".toList] := by
   decide
+
+/-- the extractor found the sort key and the `export K="v"` template the model assumes -/
+theorem templates_as_modelled :
+    Gen.CwlCmdTpl.envQuote = .dq ∧ Gen.CwlCmdTpl.sortKeyPositionThenName = true := by decide
 
 /-! ### non-vacuity -/
 example : ArgsInOrder [{ name := none, index := 0, bind := some {}, itemBind := none, value := .str "x" },
